@@ -20,7 +20,7 @@ def singles(endians=("<", ">"), aligns=(False, True), kinds=None):
     return out
 
 
-def pairs(alphabet, endians=("<", ">"), aligns=(False, True)):
+def pairs(alphabet, endians=("<", ">"), aligns=(False, True), skip_heavy_aligned=False):
     out = []
     for a_ in alphabet:
         for b_ in alphabet:
@@ -32,6 +32,8 @@ def pairs(alphabet, endians=("<", ">"), aligns=(False, True)):
                 continue
             for e in endians:
                 for al in aligns:
+                    if skip_heavy_aligned and al and (a_ in HEAVY or b_ in HEAVY):
+                        continue
                     out.append(Program([a_, b_], e, al))
     return out
 
@@ -50,6 +52,8 @@ def reduced_programs(seed=0, sample=24):
             if not valid_sequence((a_, b_)) or (a_ in HEAVY and b_ in HEAVY):
                 continue
             for al in (False, True):
+                if al and (a_ in HEAVY or b_ in HEAVY):
+                    continue
                 ps.append(Program([a_, b_], "<>"[i % 2], al))
                 i += 1
     light = [k for k in KINDS if k not in HEAVY and k not in REJECTED and k not in EOF_KINDS]
@@ -58,7 +62,7 @@ def reduced_programs(seed=0, sample=24):
 
 
 def quick_programs(seed=0, sample=40):
-    ps = singles() + pairs(QUICK)
+    ps = singles() + pairs(QUICK, skip_heavy_aligned=True)
     light = [k for k in KINDS if k not in HEAVY and k not in REJECTED and k not in EOF_KINDS]
     ps += sample_programs(light, sample, 3, 4, seed)
     return dedupe(ps)
